@@ -1,5 +1,5 @@
 """C01 — Every required file is extracted exactly once, and nothing else is."""
-from . import lib, walkcommon as W
+from . import lib, walkcommon as W, c19
 
 META = {
     'level': 'proof',
@@ -21,12 +21,21 @@ THEOREMS = ['Scalibr.Walk.C01_calls_benign', 'Scalibr.Walk.C01_once_partial',
             'Scalibr.Walk.C01_subdir_decidable_partial', 'Scalibr.Walk.C01_distinct_decidable', 'Scalibr.Walk.C01_parentGis_is_chain']
 
 
+# Scan-level clause (a required extractor enabled for two detectors must still run once): theorems of Properties/C19Enable.lean
+ENABLE_ONCE_THEOREMS = [t for t in c19.ENABLE_THEOREMS if 'enable' in t]
+
+
 def run(ctx):
     ctx.trusted, ctx.assumptions, ctx.rule = W.TRUSTED, W.ASSUME, W.RULE
     ctx.lean_build(['Scalibr.Properties.C01', 'drv_walk'])
-    ok = ctx.audit(['Scalibr.Properties.C01'], THEOREMS)
+    ctx.lean_build([c19.ENABLE_MODULE])
+    ok = ctx.audit(['Scalibr.Properties.C01', c19.ENABLE_MODULE], THEOREMS + ENABLE_ONCE_THEOREMS)
     if ctx.tier == 'thorough':
         ok = ctx.leanchecker('Scalibr.Properties.C01') and ok
+        ok = ctx.leanchecker(c19.ENABLE_MODULE) and ok
+    # ---- "exactly once / exactly the union" at Scan level: detectors' required extractors are auto-enabled once (the glue in scalibr.go
+    # above filesystem.Run; stream and oracle live in checks/c19.py, which owns the real-Scan harness)
+    c19.run_enable_once(ctx)
     n = {'quick': 6000, 'thorough': 150000}[ctx.tier] * W.scale(ctx)
     W.run_stream(ctx, 'plain', n, W.oracle_calls)
     W.run_stream(ctx, 'mixed', n // 3, W.oracle_calls)
